@@ -258,6 +258,11 @@ func (p c03) Gen(r *simhook.Rand, tier string, idx int) harness.Scenario {
 	long := sc.Mode == "conc" && r.Chance(1, 5)
 	if long {
 		sc.Class = "conc+long"
+		if r.Chance(1, 2) {
+			// aim dense exploration at the code this class is about: the table refresh and the lookup that races with it
+			sc.Dense = true
+			sc.DenseFuncs = []string{"(*upstream).doSlotsRefresh", "(*upstream).chooseHost"}
+		}
 	}
 	sc.Env = world.RedisCfg{Masters: 1 + r.Intn(8)}
 	sc.Env.Layout = genLayout(r, sc.Env.Masters)
